@@ -256,7 +256,12 @@ fn seq_run_index(id: &str, tier: &str, seed: u64, idx: u64, stats: &mut Stats, k
     let knobs = pick_knobs(&mut rng);
     let mut gen = Gen::new(pc.profile.clone(), format!("{}", idx), &mut rng);
     let env = make_env(&gen.names, &mut rng);
-    let len = run_len(&mut rng, pc.profile.max_len);
+    let mut len = run_len(&mut rng, pc.profile.max_len);
+    // scale runs: one run in 1024 starts far beyond the sizes ordinary histories reach
+    if idx % 1024 == 33 && matches!(id, "C01" | "C03" | "C06" | "C08" | "C09" | "C11" | "C12" | "C13") {
+        len += gen.scale_prefix(&mut rng);
+        stats.bump("scale_runs");
+    }
     let out = seq::run_seq(&pc, &knobs, &env, Source::Gen { gen: &mut gen, rng: &mut rng, len }, stats, known);
     stats.add("respelled_args", gen.respelled);
     stats.add("fault.F9_hostile_args", gen.hostile_used);
